@@ -445,3 +445,9 @@ def _gen_fetch(rng, tier):
 # whatever bytes the server returns, a transaction handed back for tx_id hashes to tx_id
 contract(H + "fetch_raw", props=("C04",), params={"tx_id_bytes": "bytes:32", "raw": "bytes"},
          ensures=["implies(returns(), result == tx_id_bytes)"], gen=_gen_fetch)
+
+
+# history form of the fetcher clause: whatever the server answered, every transaction the fetcher hands
+# back later for that id -- and every entry it leaves in its cache -- hashes to the id it is filed under
+contract(H + "fetch_twice", props=("C04",), params={"tx_id_bytes": "bytes:32", "raw": "bytes"}, tiers=(),
+         ensures=["returns()", "all(k == h for k, h in result)"], gen=_gen_fetch)
